@@ -66,6 +66,14 @@ PassesFails(e) ==
 
 SnapshotFails(e) == IF e.same = "T" THEN {} ELSE {"input-mutated"}
 
+(* An untagged union cannot round-trip a value whose serialised form an EARLIER member also accepts *)
+(* (Union[str, Fraction]: 5 -> Fraction(5) -> "5" -> "5"): inherent to left-most-wins, reported under *)
+(* its own clause name so that it is told apart from any other failure to re-parse.                 *)
+UnionShadow(T, v, d) ==
+  /\ T.k = "union"
+  /\ LET m == UnionPick(T.alts, v, 1)[1] IN
+     m > 1 /\ \E j \in 1..(m - 1) : Verdict(T.alts[j], d) # "R"
+
 (* C05: x obtained by conversion; d = into_data(x); x2 = from_data(d); d2 = into_data(x2) *)
 RoundTripFails(e) ==
   IF Verdict(e.ty, e.val) # "A" \/ e.x.k # "ok" THEN {}
@@ -76,23 +84,27 @@ RoundTripFails(e) ==
        (IF ~IsData(d) THEN {"not-interchange"} ELSE {})
        \cup (IF ~SerOK(e.ty, x, d) THEN {"serialised-form"} ELSE {})
        \cup (IF e.x2.k # "ok" THEN {"reparse-failed"}
-             ELSE IF StripX(Dec(e.x2.x), ExSet(e.ty)) # StripX(x, ExSet(e.ty)) THEN {"reparse-differs"}
+             ELSE IF StripX(Dec(e.x2.x), ExSet(e.ty)) # StripX(x, ExSet(e.ty))
+                  THEN (IF UnionShadow(e.ty, e.val, d) THEN {"reparse-shadowed-by-earlier-union-member"} ELSE {"reparse-differs"})
              ELSE IF e.d2.k # "ok" THEN {"reserialise-failed"}
              ELSE IF ~DataEqUpToSets(e.ty, d, e.d2.x) THEN {"reserialise-differs"} ELSE {})
 
 (* C06: typed values are fixed points of convert.  Only judged when x is the value the      *)
 (* semantics says from_data(v, T) yields (otherwise C01 reports, not C06).  Equality is     *)
 (* Python's ==, which does not look at the set-field record of dataclass instances.         *)
-FixOne(o, x, name, ES) ==
+FixOne(o, x, name, ES, shadow) ==
   IF o.k \in {"skip", "unconverted"} THEN {}
   ELSE IF o.k # "ok" THEN {name \o "-refused"}
-  ELSE IF StripX(Dec(o.x), ES) # StripX(x, ES) THEN {name \o "-differs"} ELSE {}
+  ELSE IF StripX(Dec(o.x), ES) # StripX(x, ES)
+       THEN (IF shadow THEN {name \o "-shadowed-by-earlier-union-member"} ELSE {name \o "-differs"}) ELSE {}
 FixpointFails(e) ==
   IF e.have = "F" \/ Verdict(e.ty, e.val) # "A" THEN {}
   ELSE LET x == Dec(e.x) IN
        IF x # Img(e.ty, e.val) \/ ~OutEnabled(e.ty) \/ ~StdVal(x) THEN {}
-       ELSE LET ES == ExSet(e.ty) IN
-            FixOne(e.out, x, "fixpoint", ES) \cup FixOne(e.nat, x, "native", ES) \cup FixOne(e.twice, x, "twice", ES)
+       ELSE LET ES == ExSet(e.ty)
+                \* convert = parse(serialise-by-own-type): an earlier union member that reads that serialised form wins
+                sh == e.ty.k = "union" /\ e.ser.k = "ok" /\ UnionShadow(e.ty, e.val, e.ser.x) IN
+            FixOne(e.out, x, "fixpoint", ES, sh) \cup FixOne(e.nat, x, "native", ES, sh) \cup FixOne(e.twice, x, "twice", ES, sh)
 
 (* C11: serialising a union value uses a member that accepts it *)
 UnionSerFails(e) ==
